@@ -34,6 +34,7 @@ QueueCausal(R) == \A x \in QueueItems(R) : x.up <= x.down
 (* C14 memory bandwidth.  Copy type = prefix of the name.                  *)
 (***************************************************************************)
 MemType(name) == CASE name = "Memcpy HtoD (Pageable -> Device)" -> "Memcpy HtoD"
+                   [] name = "Memcpy HtoD (Pinned -> Device)" -> "Memcpy HtoD"
                    [] name = "Memcpy DtoH (Device -> Pageable)" -> "Memcpy DtoH"
                    [] name = "Memcpy DtoD (Device -> Device)" -> "Memcpy DtoD"
                    [] name = "Memset (Device)" -> "Memset"
